@@ -220,6 +220,18 @@ fn main() {
         if impl_state != model_state {
             corr.push(format!("{{\"class\":\"CLI exit status vs resolve (edition check of Builder::generate)\",\"case\":{},\"implementation\":{},\"model\":{}}}",
                 json_str(&c.describe()), json_str(&format!("{impl_state} rc={} {}", o.rc, o.stderr.lines().filter(|l| !l.contains("conda")).last().unwrap_or(""))), json_str(m)));
+            // failing-input search, independent of the model: ground truth of Model/FeaturesSpec.lean
+            // `editionStabilised` (Rust release history): 2018 -> 1.31, 2021 -> 1.56, 2024 -> 1.85
+            if let (Some(minor), Some(ed)) = (c.minor, c.edition) {
+                let since = match ed { 2018 => 31, 2021 => 56, 2024 => 85, _ => 0 };
+                if impl_state == "ok" && minor < since {
+                    oracle.push(format!("{{\"class\":\"unsupported edition/target pair is accepted (edition {ed} needs Rust 1.{since})\",\"case\":{}}}", json_str(&c.describe())));
+                }
+                if impl_state == "rejected" && minor >= since {
+                    oracle.push(format!("{{\"class\":\"supported edition/target pair is rejected\",\"case\":{}}}", json_str(&c.describe())));
+                }
+            }
+            if impl_state == "panic" { oracle.push(format!("{{\"class\":\"CLI panics\",\"case\":{}}}", json_str(&c.describe()))); }
             continue;
         }
         if impl_state == "rejected" { rejected += 1; distinct.insert(format!("rejected:{}:{}", c.t_cli(), c.e_model())); continue; }
